@@ -45,7 +45,7 @@ var c06PanicExempt = map[string]string{
 
 func c06(p *core.Program, r *core.Report) {
 	r.Rule("R1", "recover coverage: every goroutine started by the server that reaches a decoder of external input (roaring import/unmarshal, the wire serializer, the PQL parser, the cluster-message type table) through static calls has a deferred recover in its own body, or is started per request by code that already runs under one; the framework-invoked gossip delegates that feed API.ClusterMessage are listed with the reason they need none after R2-R4 hold")
-	r.Rule("R2", "no panic on wire content: functions that interpret external bytes (package roaring's decoders and iterators, broadcast.go's type tables, the decode side of encoding/proto, API.ClusterMessage, importWorker) contain no call to panic outside the frozen, reasoned list")
+	r.Rule("R2", "no panic on wire content: functions that interpret external bytes (package roaring's decoders and iterators, broadcast.go's type tables, the decode side of encoding/proto, API.ClusterMessage, importWorker, and the functions of package gossip that hand peer-supplied bytes to Serializer.Unmarshal) contain no call to panic outside the frozen, reasoned list")
 	r.Rule("R3", "constant-index guards: a constant index or constant-bound slice of an externally supplied []byte (a []byte parameter, a range value over request views, or the result of ReadAll) is preceded in the same function by a test of that slice's length, or every static caller tests the length before the call")
 	r.Rule("R4", "nil-contradiction in message handling: in Server.receiveMessage every result of holder.Index/holder.Field is compared with nil before it is used (most cases do; the ones that did not crashed on messages for unknown schema)")
 	r.Rule("R5", "locks released on reject: every Lock/RLock of a fragment taken in a function that reaches a decoder is released by defer (so a recovered panic leaves no lock held)")
@@ -53,6 +53,16 @@ func c06(p *core.Program, r *core.Report) {
 	r.Rule("R8", "sizes computed from input counts do not wrap: on the decode path a product or sum of an input count that is compared with len(data) is computed in 64 bits (or in int after widening), never in the count's own 16- or 32-bit type")
 	r.Rule("R9", "computed slice bounds are checked: on the roaring decode path a slice expression on a byte slice whose bound is a sum (offset + size from the input) is reached only after a comparison of a sum mentioning one of the bound's variables with len(<that slice>); a later plain assignment to such a variable discards the check")
 	r.Rule("R10", "extent sums cannot wrap: a 64-bit unsigned quantity from the input that enters the sum of an extent check was bounded from above on every path to the check by a comparison not involving len")
+	r.Rule("R11", "decoders leave no nil sub-message: a decode function of encoding/proto that assigns a pointer-to-struct field of its destination (m.Meta, m.Node, m.Schema, ...) assigns it a non-nil value on every path to a normal return -- an early return on an absent input or an `if pb.X != nil` around the allocation leaves the field nil, and the message handlers dereference these fields unguarded")
+	c06DecodersLeaveNoNil(p, r)
+	r.Rule("R12", "index sums cannot wrap (generated decoders): in every Unmarshal method of package internal a sum of the decode index and a length read from the input -- `postIndex := iNdEx + n`, `(iNdEx + skippy)` -- is tested `< 0` with a returning body before it is compared with the buffer length and used as a slice bound or as the next index")
+	c06IndexSumsCannotWrap(p, r)
+	r.Rule("R13", "the stored count is not an extent: in package roaring a slice made with length Container.N() is never filled by indexed stores (the payload, not the header count, decides how many values a conversion yields); make(T, 0, N()) plus append is the accepted form")
+	c06CountIsNotAnExtent(p, r)
+	r.Rule("R14", "validate, then apply: in Bitmap.ImportRoaringBits every call that writes the bitmap's containers (Containers.Update/Put/Remove/...) is reached only after an error returned by roaringIterator.Next was found equal to io.EOF, i.e. after the whole payload was decoded once without error")
+	c06ValidateBeforeApply(p, r)
+	r.Rule("R15", "decode, then replace: a fragment method that takes an io.Reader and renames a file onto <fragment>.path reaches the rename only on paths where the result of (*roaring.Bitmap).UnmarshalBinary was found nil (error nil-ness is tracked per variable, so `if err == nil { err = decode }; if err != nil { return }` is understood)")
+	c06DecodeBeforeReplace(p, r)
 	c06Extents(p, r)
 	c06Slices(p, r)
 	r.NotDecided = "that counts inside the payload are consistent with the payload itself (a cardinality that disagrees with the runs), that a rejected multi-container import leaves no partial change (the source itself notes it may)"
@@ -220,6 +230,7 @@ func c06(p *core.Program, r *core.Report) {
 
 	// ---- R2
 	nFns := 0
+	nGossip := 0
 	inputFuncs := func(q *packages.Package, fd *ast.FuncDecl) bool {
 		name := core.FuncName(fd)
 		switch q {
@@ -231,10 +242,25 @@ func c06(p *core.Program, r *core.Report) {
 			return name == "getMessage" || name == "getMessageType" || name == "(*API).ClusterMessage" || name == "importWorker" || name == "(*Server).receiveMessage" || name == "MarshalInternalMessage"
 		case p.Pkg("pql"):
 			return name == "(*parser).Parse" || name == "ParseString"
+		case gp:
+			// gossip: whatever hands peer-supplied bytes (packets, node meta) to the serializer
+			calls := false
+			ast.Inspect(fd.Body, func(n ast.Node) bool {
+				if c, ok := n.(*ast.CallExpr); ok {
+					if fn := core.CalleeOf(gp.TypesInfo, c); fn != nil && fn.Name() == "Unmarshal" && recvNamed(fn, "Serializer") {
+						calls = true
+					}
+				}
+				return true
+			})
+			if calls {
+				nGossip++
+			}
+			return calls
 		}
 		return false
 	}
-	for _, q := range []*packages.Package{rp, pp, pk, p.Pkg("pql")} {
+	for _, q := range []*packages.Package{rp, pp, pk, p.Pkg("pql"), gp} {
 		if q == nil {
 			continue
 		}
@@ -298,6 +324,7 @@ func c06(p *core.Program, r *core.Report) {
 		}
 	}
 	r.Floor("C06/R2 input-interpreting functions examined", nFns, 150)
+	r.Floor("C06/R2 gossip functions that unmarshal peer-supplied bytes", nGossip, 1)
 
 	// ---- R3
 	c06ConstIndex(p, r, []*packages.Package{pk, rp})
